@@ -269,6 +269,12 @@ def parse_const(s):
     if m:
         t = m.group(1)
         v = float('nan') if t == 'NaN' else float(t)
+        if m.group(2) == 'f32' and v == v and v not in (float('inf'), float('-inf')):
+            import struct
+            try:
+                v = struct.unpack('<f', struct.pack('<f', v))[0]      # an f32 constant carries the f32-rounded value
+            except OverflowError:
+                v = float('inf') if v > 0 else float('-inf')
         return ('float', v, m.group(2))
     return ('named', s)
 
